@@ -79,6 +79,20 @@ theorem tableLoad_prop_shape (s s' : Loaded) (rows : List Line) (cols : List PCo
       ∃ q, s'.prop? c.prop = some q ∧ q.shape = c.shape ∧ shapeProd c.shape = c.names.length :=
   tableLoad_shape s s' rows cols usecols hnd h
 
+/-- **tableLoad_prop_values** ("… every carried per-atom property … with unit conversions undone"): the table
+    reader in closed form, property by property.  With one table row per atom, every listed property holds, in
+    atom-id order (`sortRows`), the cells of its own column group (`groupCells`: the columns after those of the
+    entries before it) exactly as read — or each times the unit factor of the entry — under the entry's shape. -/
+theorem tableLoad_prop_values (s s' : Loaded) (rows : List Line) (cols : List PCol) (usecols : Bool)
+    (hnd : (cols.map (·.prop)).Nodup) (h : tableLoad s rows cols usecols = .ok s') :
+    ∃ tbl, readTable rows (colsWidth cols) usecols = .ok tbl ∧
+      (tbl.length = s.natoms → ∀ (j : Nat) (hj : j < cols.length), cols[j].prop ≠ "a_id" →
+        ∃ q, s'.prop? cols[j].prop = some q ∧ q.shape = cols[j].shape ∧
+          (cols[j].unit = .none → q.vals = (sortRows cols tbl).map fun r => (groupCells cols j r).map Val.toRat) ∧
+          (∀ f, cols[j].unit = .factor f →
+            q.vals = (sortRows cols tbl).map fun r => (groupCells cols j r).map fun v => v.toRat * f)) :=
+  tableLoad_vals s s' rows cols usecols hnd h
+
 /-- a table with a scalar, a `(1,)`, a `(1,1)` and a `(1,3)` property: four different shapes come back. -/
 example :
     ((loadTable "1 2.5 7 1 2 3\n2 3.5 8 4 5 6\n".toList ⟨⟨⟨1, 0, 0⟩, ⟨0, 1, 0⟩, ⟨0, 0, 1⟩⟩, ⟨0, 0, 0⟩⟩
@@ -86,6 +100,19 @@ example :
          ⟨"r", ["r[0][0]", "r[0][1]", "r[0][2]"], [1, 3], .none⟩] false).toOption.map
       fun s => s.props.map fun p => (p.name, p.shape, p.isInt)) =
     some [("atype", [], true), ("pos", [3], false), ("w", [1], false), ("k", [1, 1], true), ("r", [1, 3], true)] := by
+  decide +kernel
+
+/-- rows out of id order, a `(1,)` column with a unit factor 1/2 and a boolean `(1,1)` column. -/
+def exTable : Option Loaded :=
+  (loadTable "2 3.5 False\n1 2.5 True\n".toList ⟨⟨⟨1, 0, 0⟩, ⟨0, 1, 0⟩, ⟨0, 0, 1⟩⟩, ⟨0, 0, 0⟩⟩
+    [⟨"a_id", ["id"], [], .none⟩, ⟨"w", ["w[0]"], [1], .factor (1 / 2)⟩, ⟨"b", ["b[0][0]"], [1, 1], .none⟩] false).toOption
+
+/-- … the values come back in id order, converted, under the shapes `(1,)` and `(1,1)`; the boolean column is boolean. -/
+example : (exTable.map fun s => (s.props.drop 2).map fun p => p.vals) = some [[[5 / 4], [7 / 4]], [[1], [0]]] := by
+  decide +kernel
+example : (exTable.map fun s => (s.props.drop 2).map fun p => (p.name, p.shape)) = some [("w", [1]), ("b", [1, 1])] := by
+  decide +kernel
+example : (exTable.map fun s => (s.props.drop 2).map fun p => (p.isInt, p.isBool)) = some [(false, false), (false, true)] := by
   decide +kernel
 
 /-! ## order of the atom lines -/
